@@ -116,6 +116,20 @@ pub fn run(tape: &[u8], ctx: &mut Ctx) {
 			return;
 		}
 	}
+	// the same message through writers that accept only k bytes per call
+	for k in [1usize, 2, 3, 7, 8, 9, 64] {
+		evals += 1;
+		let mut sink = crate::io::ScheduledSink::new(vec![], k, t.bool());
+		let mut sc2 = SerializerConfig::new(&case.crate_schema);
+		match serde_avro_fast::to_single_object(&p, &mut sink, &mut sc2) {
+			Ok(_) => {
+				if sink.delivered != bytes {
+					ctx.violation("C18/short-writes-change-the-message", format!("schema {}: a writer accepting {k} bytes per call received {} instead of {}", case.json, hex(&sink.delivered), hex(&bytes)));
+				}
+			}
+			Err(e) => ctx.violation("C18/short-writes-make-serialization-fail", format!("schema {} k={k}: {e}", case.json)),
+		}
+	}
 	// read back
 	for chunk in [None, Some(1usize), Some(3), Some(10), Some(11)] {
 		evals += 1;
